@@ -218,6 +218,7 @@ func unmarshalUnknownValue(dec *msgpack.Decoder, ty cty.Type, path cty.Path) (re
 	}
 
 	builder := cty.UnknownVal(ty).Refine()
+	lengthMin, lengthMax := 0, math.MaxInt
 	for i := 0; i < entryCount; i++ {
 		// Our refinement encoding format uses compact msgpack primitives to
 		// minimize the encoding size of refinements, which could otherwise
@@ -287,8 +288,14 @@ func unmarshalUnknownValue(dec *msgpack.Decoder, ty cty.Type, path cty.Path) (re
 			}
 			switch keyCode {
 			case unknownValLengthMin:
+				if bound > lengthMin {
+					lengthMin = bound
+				}
 				builder = builder.CollectionLengthLowerBound(bound)
 			case unknownValLengthMax:
+				if bound < lengthMax {
+					lengthMax = bound
+				}
 				builder = builder.CollectionLengthUpperBound(bound)
 			default:
 				panic("unsupported keyCode") // should not get here
@@ -328,6 +335,15 @@ func unmarshalUnknownValue(dec *msgpack.Decoder, ty cty.Type, path cty.Path) (re
 	// map in case we want to pack something else in there later or in case
 	// a future version wants to use padding to optimize storage. Current
 	// encoders should not add any extra content there, though.
+
+	if ty.IsListType() && lengthMin == lengthMax && lengthMin != preallocLen(lengthMin) {
+		// A list whose length is known exactly becomes a known list of that
+		// many unknown elements, which an encoder writes as an array. A
+		// refinement that would have us build more elements than we'd reserve
+		// on the strength of an array header alone is unreasonable and might
+		// be an abusive attempt to allocate large amounts of memory.
+		return cty.DynamicVal, path.NewErrorf("oversize list length refinement")
+	}
 
 	return builder.NewValue(), nil
 }
